@@ -277,7 +277,7 @@ def run(prog: Program, ctx: Ctx) -> None:  # noqa: PLR0912,PLR0915
     sets = [n for n in cfgr.live_nodes() if n.kind == "stmt" and isinstance(n.stmt, ast.Assign) and isinstance(n.stmt.targets[0], ast.Attribute)
             and isinstance(n.stmt.value, ast.Constant) and n.stmt.value.value is True and dotted(n.stmt.targets[0].value) == "self"]
     if not sets:
-        raise AnalysisError("C06-R2: no re-entrancy flag set in Alias.resolve_target")
+        ctx.note("R2: Alias.resolve_target sets no re-entrancy flag itself: the pairing rule has nothing to look at; cycles are decided by R1 (guards) and R7 / R8 (behaviour)")
     for s in sets:
         flag = unparse(s.stmt.targets[0])
 
